@@ -1,7 +1,8 @@
 import CB.Driver.Util
 import CB.Model.Cmp
+import CB.Model.NumTests
 namespace CB
-open CB.Cmp
+open CB.Cmp CB.NumTests
 
 private def ordTok (o : Int) : String := if o < 0 then "lt" else if o = 0 then "eq" else "gt"
 private def bitTok (c : Nat) : String := if c = 0 then "0" else "1"
@@ -21,8 +22,91 @@ private def intCmpAll (a b : Int) : String :=
   let o : Int := if a < b then -1 else if a = b then 0 else 1
   s!"{bitTok (if a = b then 1 else 0)} {bitTok (if a < b then 1 else 0)} {bitTok (if a > b then 1 else 0)} {ordTok o} {ordTok o}"
 
+private def b01 (p : Bool) : String := if p then "1" else "0"
+
+/-- `c06.{u,b}.wrapped_cmp`: comparisons of a plain value with `Odd(y)` and the `ct_eq` of the wrappers;
+    `eq`/`cmp`/`cteq` are the models of the underlying operations (fixed: masks, boxed: 0/1 choices) -/
+private def wrappedCmp (x y : List Nat) (a b : Nat) (eqTok : List Nat → List Nat → String)
+    (cmp : List Nat → List Nat → Int) (lt gt : List Nat → List Nat → Nat) : String :=
+  let o3 : Int := if a < b then -1 else if a = b then 0 else 1
+  let oy := wrapNew (b % 2 = 1) y
+  let ox := wrapNew (a % 2 = 1) x
+  let first := match oy with
+    | some y' => s!"{eqTok x y'} {ordTok (cmp x y')} {bitTok (lt x y')} {bitTok (gt x y')}"
+    | none => "- - - -"
+  let first0 := if b % 2 = 1 then s!"{b01 (a == b)} {ordTok o3} {b01 (a < b)} {b01 (a > b)}" else "- - - -"
+  let oeq := match ox, oy with
+    | some x', some y' => eqTok x' y'
+    | _, _ => "-"
+  let oeq0 := if a % 2 = 1 ∧ b % 2 = 1 then b01 (a == b) else "-"
+  let neq := match wrapNew (a != 0) x, wrapNew (b != 0) y with
+    | some x', some y' => eqTok x' y'
+    | _, _ => "-"
+  let neq0 := if a ≠ 0 ∧ b ≠ 0 then b01 (a == b) else "-"
+  s!"{first} {oeq} {neq} ;; {first0} {oeq0} {neq0}"
+
 def dispatchC06 : Dispatch := fun op args =>
   match op, args with
+  -- ---- coverage round: num-traits style constructors / tests, provided trait methods, wrappers, ConstChoice ==
+  | "c06.w.numtests", [a] =>   -- zero is_zero one is_one set_zero zero_like
+    match hexToNat? a with
+    | some a =>
+      let l1 := s!"0 {choiceTok (limbIsZero a)} 1 {choiceTok (limbIsOne a)} {limbsHex (setZero [a])} {limbsHex (zeroLike [a])}"
+      let l0 := s!"0 {b01 (a == 0)} 1 {b01 (a == 1)} 0 0"
+      some s!"{l1} ;; {l0}"
+    | _ => badArgs
+  | "c06.w.choice_eq", [p, q] =>
+    match p.toNat?, q.toNat? with
+    | some p, some q =>
+      let e := choiceEq (maskOfBit p) (maskOfBit q)
+      some s!"{b01 e} {b01 (!e)} ;; {b01 (p == q)} {b01 (p != q)}"
+    | _, _ => badArgs
+  | "c06.u.numtests", [n, a, l] =>
+    -- one from_limb_like nlimbs zero is_zero is_one one_like set_zero zero_like
+    match n.toNat?, hexToNat? a, hexToNat? l with
+    | some n, some a, some l =>
+      let x := toLimbs n a
+      let l1 := s!"{limbsHex (uone n)} {limbsHex (fromLimbLike n l)} {x.length} {limbsHex (uzero n)} {choiceTok (isZeroNum x)} {choiceTok (isOneNum x)} {limbsHex (oneLike x)} {limbsHex (setZero x)} {limbsHex (zeroLike x)}"
+      let l0 := s!"1 {natToHex l} {n} 0 {b01 (a == 0)} {b01 (a == 1)} 1 0 0"
+      some s!"{l1} ;; {l0}"
+    | _, _, _ => badArgs
+  | "c06.i.numtests", [n, a] =>   -- zero is_zero one is_one set_zero zero_like (on the signed value)
+    match n.toNat?, hexToNat? a with
+    | some n, some a =>
+      let x := toLimbs n a
+      let v := toInt x
+      let l1 := s!"{limbsHex (uzero n)} {choiceTok (isZeroNum x)} {limbsHex (uone n)} {choiceTok (isOneNum x)} {limbsHex (setZero x)} {limbsHex (zeroLike x)}"
+      let l0 := s!"0 {b01 (v == 0)} 1 {b01 (v == 1)} 0 0"
+      some s!"{l1} ;; {l0}"
+    | _, _ => badArgs
+  | "c06.u.wrapped_cmp", [n, a, b] =>
+    match n.toNat?, hexToNat? a, hexToNat? b with
+    | some n, some a, some b =>
+      some (wrappedCmp (toLimbs n a) (toLimbs n b) a b (fun x y => choiceTok (eqOdd x y)) cmpOdd ult ugt)
+    | _, _, _ => badArgs
+  | "c06.b.wrapped_cmp", [na, a, nb, b] =>
+    match na.toNat?, hexToNat? a, nb.toNat?, hexToNat? b with
+    | some na, some a, some nb, some b =>
+      some (wrappedCmp (toLimbs na a) (toLimbs nb b) a b (fun x y => bitTok (bEqOdd x y)) bCmpOdd bctLt bctGt)
+    | _, _, _, _ => badArgs
+  | "c06.b.numtests", [n, a, l] =>
+    -- is_one default one from_limb_like nlimbs zero is_zero set_zero is_one(num) one_like zero_like
+    match n.toNat?, hexToNat? a, hexToNat? l with
+    | some n, some a, some l =>
+      let x := toLimbs n a
+      let l1 := s!"{bIsOne x} 1:0 1:1 {limbsHexLen (bFromLimbLike l x)} {x.length} 1:0 {bIsZero x} {limbsHexLen (bSetZero x)} {bIsOne x} {limbsHexLen (oneLike x)} {limbsHexLen (bSetZero x)}"
+      let l0 := s!"{b01 (a == 1)} 1:0 1:1 {n}:{natToHex l} {n} 1:0 {b01 (a == 0)} {n}:0 {b01 (a == 1)} {n}:1 {n}:0"
+      some s!"{l1} ;; {l0}"
+    | _, _, _ => badArgs
+  | "c06.b.select_default", [n, a, b, c] =>   -- provided ct_assign, ct_swap(2)
+    match n.toNat?, hexToNat? a, hexToNat? b, c.toNat? with
+    | some n, some a, some b, some c =>
+      let x := toLimbs n a; let y := toLimbs n b; let m := maskOfBit c
+      let sw := defaultCtSwap x y m
+      let l1 := s!"{limbsHexLen (defaultCtAssign x y m)} {limbsHexLen sw.1} {limbsHexLen sw.2}"
+      let l0 := if c = 0 then s!"{n}:{natToHex a} {n}:{natToHex a} {n}:{natToHex b}" else s!"{n}:{natToHex b} {n}:{natToHex b} {n}:{natToHex a}"
+      some s!"{l1} ;; {l0}"
+    | _, _, _, _ => badArgs
   | "c06.w.cmp", [a, b] =>
     match hexToNat? a, hexToNat? b with
     | some a, some b =>
